@@ -169,4 +169,62 @@ theorem stripNeg_natDigits (n : Nat) (rest : List Char) : stripNeg (natDigits n 
 theorem stripNeg_minus (r : List Char) : stripNeg ('-' :: r) = (true, r) := by simp [stripNeg]
 
 
+/-! ### numeric-literal recogniser -/
+
+theorem padN_all_digits (w n : Nat) : ∀ c ∈ padN w n, isDigitC c = true := by
+  induction w generalizing n with
+  | zero => intro c hc; simp [padN] at hc
+  | succ w ih =>
+    intro c hc
+    simp only [padN, List.mem_append, List.mem_singleton] at hc
+    rcases hc with hc | hc
+    · exact ih _ c hc
+    · subst hc; exact isDigitC_digitChar _ (Nat.mod_lt _ (by decide))
+
+theorem padN_succ_cons (w n : Nat) : ∃ x xs, padN (w + 1) n = x :: xs ∧ isDigitC x = true := by
+  have hall := padN_all_digits (w + 1) n
+  cases hl : padN (w + 1) n with
+  | nil => have := length_padN (w + 1) n; rw [hl] at this; simp at this
+  | cons x xs => exact ⟨x, xs, rfl, hall x (by simp [hl])⟩
+
+theorem takeWhile_digits_append (l : List Char) (hall : ∀ c ∈ l, isDigitC c = true) (c : Char) (rest : List Char) (hc : isDigitC c = false) :
+    (l ++ c :: rest).takeWhile isDigitC = l ∧ (l ++ c :: rest).dropWhile isDigitC = c :: rest := by
+  induction l with
+  | nil => simp [hc]
+  | cons x xs ih =>
+    have hx : isDigitC x = true := hall x (by simp)
+    have := ih (fun c hc => hall c (by simp [hc]))
+    simp [hx, this]
+
+/-- a text that starts with at least one digit and continues with a character that is neither a digit nor `.`/`e`/`E`
+    nor a space is not a numeric literal -/
+theorem looksNumeric_digits_then (w n : Nat) (c : Char) (rest : List Char)
+    (h1 : isDigitC c = false) (h2 : c ≠ '.') (h3 : c ≠ 'e') (h4 : c ≠ 'E') (h5 : isSpaceSql c = false) :
+    looksNumeric (padN (w + 1) n ++ c :: rest) = false := by
+  obtain ⟨x, xs, hx, hd⟩ := padN_succ_cons w n
+  have hall := padN_all_digits (w + 1) n
+  have hxs : isSpaceSql x = false := by
+    cases hsp : isSpaceSql x
+    · rfl
+    · exfalso
+      simp [isSpaceSql] at hsp
+      rcases hsp with ((((rfl | rfl) | rfl) | rfl) | rfl) | rfl <;> simp [isDigitC, digitVal] at hd
+  have hsign : x ≠ '+' ∧ x ≠ '-' := by
+    constructor <;> (intro h; subst h; simp [isDigitC, digitVal] at hd)
+  unfold looksNumeric
+  have e1 : (padN (w + 1) n ++ c :: rest).dropWhile isSpaceSql = padN (w + 1) n ++ c :: rest := by
+    rw [hx]; simp [hxs]
+  have e2 : dropSign (padN (w + 1) n ++ c :: rest) = padN (w + 1) n ++ c :: rest := by
+    rw [hx]; simp [dropSign, hsign.1, hsign.2]
+  obtain ⟨t, d⟩ := takeWhile_digits_append (padN (w + 1) n) hall c rest h1
+  simp only [e1, e2, t, d]
+  have hne : (padN (w + 1) n).isEmpty = false := by rw [hx]; rfl
+  split
+  · rename_i r heq; injection heq with h _; exact absurd h h2
+  · simp only [hne, Bool.false_eq_true, if_false]
+    unfold expTailOk
+    have : (c == 'e' || c == 'E') = false := by simp [h3, h4]
+    simp [this, h5]
+
+
 end PonyVerif.Model.Store
